@@ -10,7 +10,7 @@ open MpycV.PyList
 set_option linter.unusedVariables false
 
 
--- ≙ thresha.py:68 `_recombination_vector`
+-- ≙ thresha.py:74 `_recombination_vector`
 def recombination_vector (p : Int) (xs : List Int) (x_r : Int) : Except TErr (List Int) :=
   let xs := (List.map (fun (x : Int) => (x % p)) xs)
   let x_r := (x_r % p)
@@ -40,7 +40,7 @@ def recombination_vector (p : Int) (xs : List Int) (x_r : Int) : Except TErr (Li
   | .ok vector =>
     .ok (vector)
 
--- ≙ thresha.py:88 `recombine`
+-- ≙ thresha.py:94 `recombine`
 def recombine_list (p : Int) (isField : Bool) (points : List ((Int × List Int))) (x_rs : List Int) : Except TErr (List (List Int)) :=
   if points = [] then .error .valueError else
   let xs := List.map Prod.fst points
@@ -57,9 +57,9 @@ def recombine_list (p : Int) (isField : Bool) (points : List ((Int × List Int))
     if pyIdxOk shares.length 0 = false then .error .indexError else
     let n := ((pyGet shares 0).length : Int)
     let sums := (List.map (fun (i_ : Int) => (List.replicate (n).toNat 0)) (pyRange 0 width))
-    if pyIdxOk shares.length 0 = false then .error .indexError else
-    if pyIdxOk (pyGet shares 0).length 0 = false then .error .indexError else
-    let T_is_field := isField
+    if ((n > 0) ∧ (pyIdxOk shares.length 0 = false)) then .error .indexError else
+    if ((n > 0) ∧ (pyIdxOk (pyGet shares 0).length 0 = false)) then .error .indexError else
+    let T_is_field := decide ((n > 0 ∧ isField = true))
     match pyFor (ε := TErr) (σ := List (List Int)) (pyEnum shares) sums (fun it_ st_ => match it_, st_ with
         | (i, share_i), sums =>
           match pyFor (ε := TErr) (σ := List (List Int)) (pyRange 0 n) sums (fun it_ st_ => match it_, st_ with
@@ -112,7 +112,7 @@ def recombine_list (p : Int) (isField : Bool) (points : List ((Int × List Int))
       | .ok sums =>
         .ok (sums)
 
--- ≙ thresha.py:88 `recombine`
+-- ≙ thresha.py:94 `recombine`
 def recombine_one (p : Int) (isField : Bool) (points : List ((Int × List Int))) (x_rs : Int) : Except TErr (List Int) :=
   if points = [] then .error .valueError else
   let xs := List.map Prod.fst points
@@ -130,9 +130,9 @@ def recombine_one (p : Int) (isField : Bool) (points : List ((Int × List Int)))
     if pyIdxOk shares.length 0 = false then .error .indexError else
     let n := ((pyGet shares 0).length : Int)
     let sums := (List.map (fun (i_ : Int) => (List.replicate (n).toNat 0)) (pyRange 0 width))
-    if pyIdxOk shares.length 0 = false then .error .indexError else
-    if pyIdxOk (pyGet shares 0).length 0 = false then .error .indexError else
-    let T_is_field := isField
+    if ((n > 0) ∧ (pyIdxOk shares.length 0 = false)) then .error .indexError else
+    if ((n > 0) ∧ (pyIdxOk (pyGet shares 0).length 0 = false)) then .error .indexError else
+    let T_is_field := decide ((n > 0 ∧ isField = true))
     match pyFor (ε := TErr) (σ := List (List Int)) (pyEnum shares) sums (fun it_ st_ => match it_, st_ with
         | (i, share_i), sums =>
           match pyFor (ε := TErr) (σ := List (List Int)) (pyRange 0 n) sums (fun it_ st_ => match it_, st_ with
@@ -191,10 +191,11 @@ def recombine_one (p : Int) (isField : Bool) (points : List ((Int × List Int)))
 def random_split (p : Int) (isField : Bool) (s : List Int) (t : Int) (m : Int) (stream : List Int) : Except TErr (List (List Int)) :=
   let p := p
   let order := p
+  if (t ≠ 0 ∧ m ≥ order) then .error .valueError else
   let _0 := 0
   let shares := (List.map (fun (i_ : Int) => (List.replicate ((s.length : Int)).toNat 0)) (pyRange 0 m))
-  if pyIdxOk s.length 0 = false then .error .indexError else
-  let T_is_field := isField
+  if (((s.length : Int) > 0) ∧ (pyIdxOk s.length 0 = false)) then .error .indexError else
+  let T_is_field := decide (((s.length : Int) > 0 ∧ isField = true))
   match pyFor (ε := TErr) (σ := List Int × List (List Int)) (pyEnum s) (stream, shares) (fun it_ st_ => match it_, st_ with
       | (h, s_h), (stream, shares) =>
         let s_h :=
@@ -226,7 +227,7 @@ def random_split (p : Int) (isField : Bool) (s : List Int) (t : Int) (m : Int) (
   | .ok (stream, shares) =>
     .ok (shares)
 
--- ≙ thresha.py:136 `_f_S_i`
+-- ≙ thresha.py:142 `_f_S_i`
 def f_S_i (p : Int) (m : Int) (i : Int) (S : List Int) : Except TErr (Int) :=
   let points := ([(0, [1])] ++ (List.map (fun (x : Int) => ((x + 1), [0])) (List.filter (fun (x : Int) => decide (¬ (x ∈ S))) (pyRange 0 m))))
   match recombine_one p false points (i + 1) with
@@ -235,7 +236,7 @@ def f_S_i (p : Int) (m : Int) (i : Int) (S : List Int) : Except TErr (Int) :=
     if pyIdxOk v1.length 0 = false then .error .indexError else
     .ok ((pyGet v1 0))
 
--- ≙ thresha.py:144 `pseudorandom_share`
+-- ≙ thresha.py:150 `pseudorandom_share`
 def pseudorandom_share (p : Int) (m : Int) (i : Int) (prfs : List ((List Int × List Int))) (n : Int) : Except TErr (List Int) :=
   let sums := (List.replicate (n).toNat 0)
   match pyFor (ε := TErr) (σ := List Int) prfs sums (fun it_ st_ => match it_, st_ with
@@ -266,7 +267,7 @@ def pseudorandom_share (p : Int) (m : Int) (i : Int) (prfs : List ((List Int × 
     | .ok sums =>
       .ok (sums)
 
--- ≙ thresha.py:176 `pseudorandom_share_zero`
+-- ≙ thresha.py:182 `pseudorandom_share_zero`
 def pseudorandom_share_zero (p : Int) (m : Int) (i : Int) (prfs : List ((List Int × List Int))) (n : Int) : Except TErr (List Int) :=
   let _0 := 0
   let i1 := (i + 1)
